@@ -143,8 +143,8 @@ PROPS["C18"] = {"level": "fault_enumeration", "conc": True, "assumptions": _A + 
 PROPS["C16"] = {"level": "exploration", "conc": True, "assumptions": _A}
 PROPS["C17"] = {"level": "exploration", "conc": True, "assumptions": _A + ["projection chains: container, Map (static), Box<dyn DynAccess>, Map of Map, AccessConvert, ArcSwapAny::map over a reference"]}
 NONTRIVIAL["C17"] = ("distinct executions in which a projection guard is dereferenced after a write", lambda evs: _has(evs, lambda e: e["e"] == "deref" and e.get("k") == "p") and _has(evs, lambda e: e["e"] == "w"))
-CONC_PLAN["quick"] += [("panic_help", 400), ("help2w", 2500), ("aba", 500), ("adv", 150), ("solo", 1500), ("solo2c", 300), ("access", 600), ("cache2", 1500)]
-CONC_PLAN["thorough"] += [("panic_help", 4000), ("help2w", 40000), ("aba", 5000), ("adv", 1500), ("solo", 20000), ("solo2c", 3000), ("access", 6000), ("cache2", 15000)]
+CONC_PLAN["quick"] += [("panic_help", 400), ("help2w", 2500), ("aba", 500), ("adv", 150), ("solo", 1500), ("solo2c", 300), ("access", 600), ("cache2", 1500), ("serde", 500)]
+CONC_PLAN["thorough"] += [("panic_help", 4000), ("help2w", 40000), ("aba", 5000), ("adv", 1500), ("solo", 20000), ("solo2c", 3000), ("access", 6000), ("cache2", 15000), ("serde", 5000)]
 
 NOT_APPLICABLE = {}
 MANIFEST_TEXT = {
@@ -517,10 +517,11 @@ PROPS["C15"] = {"level": "model_checking", "conc": False, "assumptions": [
     "executed on Arc, Option<Arc>, Rc, Option<Rc>, sync::Weak, rc::Weak for pointee layouts usize, zero-sized, align(64), String; not a proof of memory safety for layouts not enumerated"]}
 PROPS["C19"] = {"level": "other", "conc": False, "assumptions": [
     "rustc is the decision procedure for the auto traits of the real types; the TLA+ module supplies the expected table and its soundness clause"]}
-PROPS["C20"] = {"level": "exploration", "conc": False, "assumptions": [
+PROPS["C20"] = {"level": "exploration", "conc": True, "assumptions": [
     "relational oracle only: the encoding itself is serde's business; value shapes from spec/SerdeShapes.tla; serde_json as the format"]}
-for _p in ("C15", "C19", "C20"):
+for _p in ("C15", "C19"):
     NONTRIVIAL[_p] = ("see coverage", lambda evs: True)
+NONTRIVIAL["C20"] = ("distinct executions in which a container is serialized while another thread writes it", lambda evs: _overlap_write(evs, ("ser",)))
 
 
 # ------------------------------------------------------------------ weak-memory clauses (C01 / C07): model checking with the
